@@ -8,6 +8,8 @@
      srcl            content version of lib's sources
      V               a variable consumed by app's build step
      fp              the host fingerprint (output of app's fingerprintScript)
+     reloc           whether app is relocatable; a non-relocatable result embeds its workspace
+                     location, and its Build-Id is tagged with that location
    app (depth 0, fingerprinted) depends on lib (depth 1).
 
    Build-Id = structural term over exactly what the documentation says it
@@ -44,15 +46,17 @@ P(w) == proj[w]
 SrcL(w) == <<"s", P(w).srcl>>
 \* contents a clean local build produces
 CleanDlib(w) == <<"d", "lib", SrcL(w)>>
-CleanDapp(w) == <<"d", "app", P(w).pver, P(w).bver, P(w).V, P(w).fp, CleanDlib(w)>>
+Where(w) == IF P(w).reloc THEN "anywhere" ELSE w
+CleanDapp(w) == <<"d", "app", P(w).pver, P(w).bver, P(w).V, P(w).fp, Where(w), CleanDlib(w)>>
 CleanD(w, p) == IF p = "lib" THEN CleanDlib(w) ELSE CleanDapp(w)
 \* variant ids: no source content, no fingerprint
-VIdD(w, p) == IF p = "lib" THEN <<"vd", "lib">> ELSE <<"vd", "app", P(w).pver, P(w).bver, P(w).V>>
+VIdD(w, p) == IF p = "lib" THEN <<"vd", "lib">> ELSE <<"vd", "app", P(w).pver, P(w).bver, P(w).V, P(w).reloc>>
 \* build ids
 BIdLib(w) == <<"bid", "lib", IF "BidIgnoresSrc" \in Weak THEN 9 ELSE P(w).srcl>>
 BIdApp(w) == <<"bid", "app", P(w).pver, P(w).bver,
                IF "BidIgnoresVars" \in Weak THEN 9 ELSE P(w).V,
                IF "BidIgnoresFingerprint" \in Weak THEN 9 ELSE P(w).fp,
+               P(w).reloc, IF "BidIgnoresLocation" \in Weak THEN "anywhere" ELSE Where(w),
                IF "BidIgnoresDepBid" \in Weak THEN 9 ELSE BIdLib(w)>>
 BId(w, p) == IF p = "lib" THEN BIdLib(w) ELSE BIdApp(w)
 Depth(p) == IF p = "lib" THEN 1 ELSE 0
@@ -66,10 +70,10 @@ ArchiveGet(b) == (CHOOSE a \in archive : a[1] = b)[2]
 
 \* what a local package build of p in w yields from the actual inputs (lib's dist as it is)
 LocalResult(w, p) == IF p = "lib" THEN CleanDlib(w)
-                     ELSE <<"d", "app", P(w).pver, P(w).bver, P(w).V, P(w).fp, cont[w]["lib"]>>
+                     ELSE <<"d", "app", P(w).pver, P(w).bver, P(w).V, P(w).fp, Where(w), cont[w]["lib"]>>
 \* 1657-1660: result hashes of the inputs plus the fingerprint
 PkgInputs(w, p) == IF p = "lib" THEN <<SrcL(w)>>
-                   ELSE <<P(w).bver, P(w).V, res[w]["lib"], IF "InputsIgnoreFingerprint" \in Weak THEN 9 ELSE P(w).fp>>
+                   ELSE <<P(w).bver, P(w).V, P(w).reloc, res[w]["lib"], IF "InputsIgnoreFingerprint" \in Weak THEN 9 ELSE P(w).fp>>
 
 Hist(a) == hist' = Append(hist, a)
 W == run.w
@@ -77,7 +81,7 @@ Cur == Head(run.todo)
 Running == run.mode # "idle"
 
 Init ==
-  /\ proj = [w \in WS |-> [bver |-> 0, pver |-> 0, srcl |-> 0, V |-> 0, fp |-> 0]]
+  /\ proj = [w \in WS |-> [bver |-> 0, pver |-> 0, srcl |-> 0, V |-> 0, fp |-> 0, reloc |-> TRUE]]
   /\ cont = [w \in WS |-> [p \in Pkg |-> EMPTY]]
   /\ res = [w \in WS |-> [p \in Pkg |-> NONE]]
   /\ inp = [w \in WS |-> [p \in Pkg |-> NONE]]
@@ -94,6 +98,7 @@ Edit ==
        \/ proj' = [proj EXCEPT ![w].srcl = 1 - @] /\ Hist([a |-> "Edit", w |-> w, knob |-> "srcl"])
        \/ proj' = [proj EXCEPT ![w].V = 1 - @] /\ Hist([a |-> "Edit", w |-> w, knob |-> "V"])
        \/ proj' = [proj EXCEPT ![w].fp = 1 - @] /\ Hist([a |-> "Edit", w |-> w, knob |-> "fp"])
+       \/ proj' = [proj EXCEPT ![w].reloc = ~@] /\ Hist([a |-> "Edit", w |-> w, knob |-> "reloc"])
   /\ nedit' = nedit + 1 /\ lastOk' = FALSE
   /\ UNCHANGED <<cont, res, inp, dst, archive, run, ninv, lastW, built, dl, failed, expectZero>>
 
